@@ -23,21 +23,6 @@ import (
 	"unsafe"
 )
 
-// only be used when NewRequiredFieldNotSetException
-func lookupFieldName(rt reflect.Type, offset uintptr, ft reflect.Type) string {
-	for rt.Kind() == reflect.Ptr {
-		rt = rt.Elem()
-	}
-	for i := 0; i < rt.NumField(); i++ {
-		f := rt.Field(i)
-		// a zero-size field shares its offset with the field that follows it: match the type too
-		if f.Offset == offset && f.Type == ft {
-			return f.Name
-		}
-	}
-	return "unknown"
-}
-
 func withFieldErr(err error, sd *structDesc, f *tField) error {
 	return fmt.Errorf("%q field %d err: %w", sd.Name(), f.ID, err)
 }
